@@ -56,6 +56,11 @@ var keys = []string{"s0", "s1", "l0", "t0", "h0", "a", "b", "l1", "t1"}
 
 func genOp(t *rapid.T, client, seq int) kit.Cmd {
 	uniq := fmt.Sprintf("c%d-%d", client, seq)
+	if rapid.IntRange(0, 39).Draw(t, "select") == 0 {
+		// a client that asks for another database: whatever the answer is (cluster mode has one database),
+		// it concerns that client's connection only - the others keep seeing their keys
+		return kit.MkCmd("SELECT", gen.Pick(t, "seldb", "1", "2", "5"))
+	}
 	switch gen.Weighted(t, "op", []int{5, 5, 5, 3, 2, 2, 4, 3, 2, 3, 2, 2, 2, 2}) {
 	case 0:
 		return kit.MkCmd("SET", gen.Pick(t, "sk", "s0", "s1"), uniq)
@@ -441,6 +446,9 @@ func exec(c Case) kit.Outcome {
 					continue
 				}
 				ret := time.Since(t0).Nanoseconds()
+				if strings.EqualFold(string(cmd[0]), "SELECT") {
+					continue // not part of the history: its reply is a don't-care, its effect on others is not
+				}
 				part := string(cmd[1])
 				if c.Multi {
 					part = "joint"
